@@ -780,6 +780,8 @@ P("seed-C16-19", ["C16"], "seeded/C16-19/patch.diff", rule="R-C16-H0")
 P("seed-C14-17", ["C14"], "seeded/C14-17/patch.diff", rule="R-C14-2")
 P("seed-C14-18", ["C14"], "seeded/C14-18/patch.diff", rule="R-C14-9")
 P("seed-C12-17", ["C12"], "seeded/C12-17/patch.diff", rule="C12-R6")
+P("seed-C17-19", ["C17"], "seeded/C17-19/patch.diff", rule="R-C17-1")
+P("seed-C03-20", ["C03"], "seeded/C03-20/patch.diff", rule="R-C03-2")
 B("c03-overlap-one-sided", ["C03"], "helpers.py", "    return max(start_1, start_2) < min(end_1, end_2)\n", "    return start_1 <= start_2 < end_1\n", rule="R-C03-10")
 N("c03-overlap-two-comparisons", ["C03", "C19"], "helpers.py", "    return max(start_1, start_2) < min(end_1, end_2)\n", "    return start_1 < end_2 and start_2 < end_1\n")
 
